@@ -309,7 +309,7 @@ def modifier_kind(c, m):
     return "other:" + json.dumps(m, sort_keys=True)
 
 
-def enc_case(enc: Enc, kind, c, meth, state, payload, out, events, vsc_extra=()):
+def enc_case(enc: Enc, kind, c, meth, state, payload, out, events):
     """-> (reducer case text or None, view case text, problems). Raises H.OffGrid."""
     p = params(kind, c, state)
     t = float(payload) if meth == "elapse" else 0.0
@@ -546,8 +546,15 @@ def order_witness():
     s1, e1 = c.elapse(100.0, s0)
     s2, e2 = c.elapse(44800.0, s1)
     s3, e3 = c.elapse(44900.0, s0)
-    return (n(e1) + n(e2) != n(e3)), "after use: elapse(100)+elapse(44800) deals %d ticks, swords %s; elapse(44900) deals %d ticks, swords %s" % (
+    detail = "after use: elapse(100)+elapse(44800) deals %d ticks, swords %s; elapse(44900) deals %d ticks, swords %s" % (
         n(e1) + n(e2), s2.order_sword.running_swords, n(e3), s3.order_sword.running_swords)
+    # second facet: four swords while the restore buff (another component's entity) has run out
+    s.order_sword.running_swords = [(40.0, 43000.0), (540.0, 43500.0), (20.0, 44000.0), (520.0, 44500.0)]
+    t1, f1 = c.elapse(100.0, s)
+    _t2, f2 = c.elapse(9900.0, t1)
+    _t3, f3 = c.elapse(10000.0, s)
+    detail += "; 4 swords over a capacity of 6: elapse(100)+elapse(9900) deals %d ticks, elapse(10000) deals %d" % (n(f1) + n(f2), n(f3))
+    return (n(e1) + n(e2) != n(e3) or n(f1) + n(f2) != n(f3)), detail
 
 
 def witness_replay(entry):
@@ -598,8 +605,7 @@ def cases(ctx, rng, quick):
         if rng.random() < 0.5:
             randomize(rng, ents, lasting_hint=lasting_hint)
         if not reds:        # view-only class
-            st = None
-            for _ in range(2):
+            for _ in range(1):
                 try:
                     _c, v, pr = enc_case(enc, kind, comp, "use", NoStateProxy(), None, None, None)
                 except H.OffGrid:
